@@ -622,7 +622,7 @@ both!(svd_rankdef, svd_rankdef_t, 0.3);
 fn main() {
     runner::main(Spec {
         property: "C01",
-        rule: "cases are drawn per family (lu, qr, chol, chol_indef, svd, svd_rankdef) from seeded structured generators: shape 1..40 (square / tall / wide), f64 or f32, nine structural kinds, rescaled by 1 / 10^u / 2^u with 10^u in [1e-12,1e12], condition number measured by an independent Jacobi SVD and bounded by 1e6 (f64) / 1e3 (f32), 1..4 right-hand sides; a case is non-trivial when max(m,n) >= 2 (all rank-deficient and indefinite cases are); distinct = distinct hash of (operation, width, entries of A and B)",
+        rule: "cases are drawn per family (lu, qr, chol, chol_indef, svd, svd_rankdef) from seeded structured generators: shape 1..40 (square / tall / wide), f64 or f32, nine structural kinds, rescaled by 1 / 10^u / 2^u with 10^u in [1e-12,1e12], condition number measured by an independent Jacobi SVD and bounded by 1e6 (f64) / 1e3 (f32), 1..4 right-hand sides; a case is non-trivial when max(m,n) >= 2 (all rank-deficient and indefinite cases are); distinct = distinct hash of (operation, width, entries of A and B); right-hand sides are dense or structured (identity, signed unit vectors, columns with exactly zero head / tail, one zero column)",
         assumptions: vec![
             "f32 inputs are restricted to condition number <= 1e3 (cond·eps must stay << 1 for 'well-conditioned' to be meaningful in single precision)",
             "oracle arithmetic is f64 with compensated sums on the already-rounded inputs",
